@@ -228,16 +228,18 @@ contract(V3 + ".authenticate",
          emits={"tx": "hs_request(old(self._packet_id), token)"},
          raises={LAN + "AuthenticationError": {"emits": {"tx": "maybe(hs_request(old(self._packet_id), token)) if (token is not None and key is not None) else []"}, "post": {
                      "counter_in_range": "0 <= self._packet_id <= 0xFFF",
-                     "session_stays_unauthenticated": "self._local_key == old(self._local_key) and same_object(self._local_key_expiration, old(self._local_key_expiration))",
+                     "session_stays_unauthenticated": "implies(len(events('tx')) == 0, self._local_key == old(self._local_key) and same_object(self._local_key_expiration, old(self._local_key_expiration))) and implies(len(events('tx')) >= 1, self._local_key is None and self._local_key_expiration is None)",
                      "only_handshake_requests_sent": "len(events('tx')) <= 1 and implies(len(events('tx')) == 1, events('tx')[0] == hs_request(old(self._packet_id), token))"}},
                  "builtins.TimeoutError": {"when": "token is not None and key is not None", "emits": {"tx": "hs_request(old(self._packet_id), token)"}, "post": {
                      "counter_in_range": "0 <= self._packet_id <= 0xFFF",
-                     "session_stays_unauthenticated": "self._local_key == old(self._local_key) and same_object(self._local_key_expiration, old(self._local_key_expiration))",
+                     "session_stays_unauthenticated": "implies(len(events('tx')) == 0, self._local_key == old(self._local_key) and same_object(self._local_key_expiration, old(self._local_key_expiration))) and implies(len(events('tx')) >= 1, self._local_key is None and self._local_key_expiration is None)",
                      "only_handshake_requests_sent": "len(events('tx')) == 1 and events('tx')[0] == hs_request(old(self._packet_id), token)"}},
                  "asyncio.CancelledError": {"when": "token is not None and key is not None", "emits": {"tx": "hs_request(old(self._packet_id), token)"}, "post": {
                      "counter_in_range": "0 <= self._packet_id <= 0xFFF",
-                     "session_stays_unauthenticated": "self._local_key == old(self._local_key) and same_object(self._local_key_expiration, old(self._local_key_expiration))"}}},
+                     "session_stays_unauthenticated": "implies(len(events('tx')) == 0, self._local_key == old(self._local_key) and same_object(self._local_key_expiration, old(self._local_key_expiration))) and implies(len(events('tx')) >= 1, self._local_key is None and self._local_key_expiration is None)"}}},
          cancellation=True,
+         notes="C06/C07: once a handshake request has been written the previous session is over (the device answers with a new nonce and moves to "
+               "its key): every exit without a verified reply leaves the protocol unauthenticated, so the next exchange starts with a handshake",
          ensures={"counter_in_range": "0 <= self._packet_id <= 0xFFF",
                   "credentials_present": "token is not None and key is not None and len(token) > 0",
                   "one_handshake_request": "len(T) == 1 and T[0] == hs_request(old(self._packet_id), token)",
@@ -545,3 +547,22 @@ contract(V3 + ".__init__",
                   "fresh_session": "self._packet_id == 0 and self._local_key is None and self._local_key_expiration is None",
                   "not_connected_yet": "has_own(self, '_transport') and self._transport is None"},
          notes="a new protocol object per connection (LAN._connect) starts unauthenticated, counter 0, with an empty buffer and queue that no other connection shares")
+
+
+from pyvc.dsl import conforms
+
+contract(LANC + ".__init__",
+         params={"self": "new:" + LANC, "ip": "str", "port": "int[0,65535]", "device_id": "int[0,18446744073709551615]"},
+         modifies=["self.*"], raises={},
+         ensures={"declared_attribute_types_hold": "conforms(self)",
+                  "targets": "self._ip == ip and self._port == port and self._device_id == device_id",
+                  "no_session_yet": "self._protocol is None and self._token is None and self._key is None and self._protocol_version == 2",
+                  "no_lifetime_limit": "self._connection_expiration is None and self._max_connection_lifetime is None",
+                  "invariant_established": "lan_inv(self)"},
+         notes="C07: the session discipline is an induction over calls on lan_inv; this is its base case")
+
+contract(LANC + ".max_connection_lifetime!setter",
+         params={"self": "obj:" + LANC, "seconds": "opt:int[0,86400000]"},
+         modifies=["self._max_connection_lifetime"], raises={},
+         ensures={"none_means_unlimited": "(self._max_connection_lifetime is None) == (seconds is None)",
+                  "seconds_kept": "implies(seconds is not None, self._max_connection_lifetime.total_seconds() == seconds)"})
